@@ -459,7 +459,12 @@ func (m *model) step(o Op) {
 }
 
 // check is the validity predicate over the fired order.
-func (m *model) check(f []fired) error {
+func (m *model) check(f []fired) error { return m.checkWith(f, true) }
+
+// checkWith: with sides == false only "every registered callback exactly once, latest handler, built-ins in
+// their order" is judged - used after a rejected call, whose constraints the sorter may have rewritten
+// (the territory of the listed sorter findings).
+func (m *model) checkWith(f []fired, sides bool) error {
 	pos := map[string]int{}
 	for i, x := range f {
 		r, ok := m.live[x.name]
@@ -489,6 +494,9 @@ func (m *model) check(f []fired) error {
 			}
 			last, lastName = pos[b], b
 		}
+	}
+	if !sides {
+		return nil
 	}
 	unconstrained := func(r *reg) bool { return !r.dup && (r.builtin || (r.before == "" && r.after == "")) }
 	// '*' is asserted only when it can be honoured together with the explicit
@@ -712,7 +720,7 @@ func checkCase(c Case) string {
 			var first error
 			for _, x := range cands {
 				x.step(c.Ops[i])
-				if err := x.check(r.fired); err == nil {
+				if err := x.checkWith(r.fired, false); err == nil {
 					ok = append(ok, x)
 				} else if first == nil {
 					first = err
